@@ -61,6 +61,10 @@ static void flush_log(void) {
 	fclose(f);
 }
 void __sanitizer_set_death_callback(void (*)(void)) __attribute__((weak));
+/* A pool thread that has not come back after the long bounded wait (20 s / 30 s for work that takes milliseconds) is inside the
+ * library and will not come back: the "Hang" event is the last line of the trace and the run ends here, like on the watchdog.
+ * Every later task life of the scenario would only wait for the same thread again (30 s each). */
+static void hang_exit(void) { flush_log(); _exit(3); }
 
 static int tid_now(void) {
 	if (vh_tid != -999) return vh_tid;
@@ -462,7 +466,7 @@ static void do_quiesce(void) {
 			for (int tries = 0; tries < 20000; tries++) { rc = tpt_msg_send(&g_tp->threads[i], NULL, 0, sent_cb, m); if (rc != EAGAIN) break; usleep(100); }
 			if (rc == 0) {
 				struct timespec ts; clock_gettime(CLOCK_REALTIME, &ts); ts.tv_sec += 20;
-				if (sem_timedwait(&s, &ts) != 0) LOGEV("\"e\":\"Hang\",\"where\":\"quiesce\"");
+				if (sem_timedwait(&s, &ts) != 0) { LOGEV("\"e\":\"Hang\",\"where\":\"quiesce\""); hang_exit(); }
 			}
 		}
 	}
@@ -795,7 +799,7 @@ int main(int argc, char **argv) {
 			int i = act_find(nm);
 			if (g_act[i].started) {
 				for (long t = 0; t < 300000 && !g_act[i].ctl->finished; t++) usleep(100);
-				if (!g_act[i].ctl->finished) LOGEV("\"e\":\"Hang\",\"where\":\"join\"");
+				if (!g_act[i].ctl->finished) { LOGEV("\"e\":\"Hang\",\"where\":\"join\""); hang_exit(); }
 				g_act[i].started = 0; g_act[i].len = 0; g_act[i].prog[0] = 0;
 			}
 		} else {
